@@ -441,5 +441,5 @@ func TestC20(t *testing.T) {
 	if !ok {
 		return
 	}
-	lib.Check(t, spec, lib.Scale(40000, 2000000), genAny, runAny)
+	lib.Check(t, spec, lib.Scale(24000, 2000000), genAny, runAny)
 }
